@@ -18,6 +18,7 @@ import Fan2go.Proofs.Linear
 import Fan2go.Proofs.Interp
 import Fan2go.Proofs.FnCurves
 import Fan2go.Proofs.RescaleMono
+import Fan2go.Proofs.CurveTree
 
 namespace Fan2go
 open F64
@@ -213,6 +214,63 @@ theorem C07_fn_delta_not_mono (indef : Int) : ¬ FnMonoStatement indef "delta" :
   simp only [Res.ok.injEq, List.foldl_cons, List.foldl_nil] at ha hb
   omega
 
+/-! ## 3b. nested function curves inherit monotonicity -/
+
+/-- **A whole monotone curve tree is monotone in the sensor averages.**
+    `SensorsLe S S'`: every sensor of `S` exists in `S'` with `avg ≤ avg'` (Go `<=`, so no NaN).
+    `WFMonoCurve S (cfgOf tbl) fuel id` (`Proofs/CurveTree.lean`): with depth ≤ `fuel`, leaves are
+    linear curves (min/max form with 64-bit bounds, or steps satisfying the hypotheses of
+    `C07_steps_mono`) on existing sensors, inner nodes are `sum` / `maximum` / `minimum` / `average`
+    curves with 1..2^40 members. The two runs may start from different tables (e.g. the second from
+    the table left by the first) as long as the configurations agree, and at different times. -/
+theorem C07_tree_mono (indef : Int) (S S' : SensorTable) (hS : SensorsLe S S') (now now' : Int)
+    (fuel : Nat) (tbl tbl' : CurveTable) (id : String) (hcfg : cfgOf tbl = cfgOf tbl')
+    (h : WFMonoCurve S (cfgOf tbl) fuel id) :
+    ∃ v v', (evalCurve indef S now fuel tbl id).2 = .ok v ∧
+      (evalCurve indef S' now' fuel tbl' id).2 = .ok v' ∧ v ≤ v' :=
+  let ⟨v, v', h1, h2, h3, _, _⟩ := evalCurve_mono indef S S' hS now now' fuel tbl tbl' id hcfg h
+  ⟨v, v', h1, h2, h3⟩
+
+/-- non-vacuity: `max(avg(a, b), a)` over a min/max leaf and a steps leaf; 45 °C vs 47 °C. -/
+def exTable7 : CurveTable :=
+  [ { id := "a", cfg := .linear "s" 40 60 none },
+    { id := "b", cfg := .linear "s" 0 0 (some (toSteps exSteps7)) },
+    { id := "f", cfg := .function "average" ["a", "b"] },
+    { id := "g", cfg := .function "maximum" ["f", "a"] } ]
+def exS7 (t : ℚ) : SensorTable := [("s", { avg := fin t, value := .ok (fin t) })]
+
+theorem exS7_le : SensorsLe (exS7 45000) (exS7 47000) := by
+  intro s sv h
+  unfold exS7 SensorTable.get? at *
+  simp only [List.find?_cons, List.find?_nil] at h ⊢
+  cases hs : ("s" == s) <;> simp only [hs] at h ⊢
+  · simp at h
+  · simp only [Option.map_some, Option.some.injEq] at h
+    subst h
+    exact ⟨_, rfl, by simp only [le_fin_fin]; norm_num⟩
+
+theorem exTable7_wf : WFMonoCurve (exS7 45000) (cfgOf exTable7) 3 "g" := by
+  have hs : (exS7 45000).get? "s" = some { avg := fin 45000, value := .ok (fin 45000) } := by
+    simp [SensorTable.get?, exS7]
+  have ha : ∀ n, WFMonoCurve (exS7 45000) (cfgOf exTable7) (n + 1) "a" := fun n =>
+    .minmax (sensor := "s") (mn := 40) (mx := 60) (by simp [cfgOf, CurveTable.get?, exTable7])
+      (by norm_num) (by norm_num) hs
+  have hb : WFMonoCurve (exS7 45000) (cfgOf exTable7) 1 "b" :=
+    .steps (sensor := "s") (mn := 0) (mx := 0) (x := 40) (y := 0) (rest := [(50, 100), (60, 255)])
+      (by simp [cfgOf, CurveTable.get?, exTable7, exSteps7])
+      (stepsOK_of exSteps7_ok.1 exSteps7_ok.2.1) ⟨exSteps7_ok.2.2.1, exSteps7_ok.2.2.2⟩ hs
+  have hf : WFMonoCurve (exS7 45000) (cfgOf exTable7) 2 "f" :=
+    .fn (ty := "average") (members := ["a", "b"]) (by simp [cfgOf, CurveTable.get?, exTable7])
+      (by unfold IsMonoFnType; simp) (by simp) (by norm_num)
+      (by intro m hm; simp at hm; rcases hm with rfl | rfl; exact ha 0; exact hb)
+  exact .fn (ty := "maximum") (members := ["f", "a"]) (by simp [cfgOf, CurveTable.get?, exTable7])
+    (by unfold IsMonoFnType; simp) (by simp) (by norm_num)
+    (by intro m hm; simp at hm; rcases hm with rfl | rfl; exact hf; exact ha 1)
+
+example : ∃ v v', (evalCurve (-2 ^ 63) (exS7 45000) 0 3 exTable7 "g").2 = .ok v ∧
+    (evalCurve (-2 ^ 63) (exS7 47000) 5 3 exTable7 "g").2 = .ok v' ∧ v ≤ v' :=
+  C07_tree_mono _ _ _ exS7_le 0 5 3 _ _ "g" rfl exTable7_wf
+
 /-! ## 4. requested PWM -/
 
 /-- Direct control loop without `maxPwmChangePerCycle`: the requested PWM
@@ -242,4 +300,5 @@ end Fan2go
 #print axioms Fan2go.C07_fn_mono
 #print axioms Fan2go.C07_fn_difference_not_mono
 #print axioms Fan2go.C07_fn_delta_not_mono
+#print axioms Fan2go.C07_tree_mono
 #print axioms Fan2go.C07_request_mono
